@@ -36,13 +36,41 @@ fn hash_of<T: Hash>(t: &T) -> u64 {
 }
 
 fn sub_frame(fam: Fam, typ: u8, filter: &[u8]) -> Vec<u8> {
+    sub_frame_multi(fam, typ, &[filter])
+}
+
+fn sub_frame_multi(fam: Fam, typ: u8, filters: &[&[u8]]) -> Vec<u8> {
     let props = if fam == Fam::V5 { Some(Props::default()) } else { None };
     let body = if typ == model::T_SUBSCRIBE {
-        Body::Subscribe { pid: 1, props, topics: vec![(filter.to_vec(), 1)] }
+        Body::Subscribe { pid: 1, props, topics: filters.iter().map(|f| (f.to_vec(), 1)).collect() }
     } else {
-        Body::Unsubscribe { pid: 1, props, topics: vec![filter.to_vec()] }
+        Body::Unsubscribe { pid: 1, props, topics: filters.iter().map(|f| f.to_vec()).collect() }
     };
     model::serialize(&WPacket::new(fam, (typ << 4) | 2, body)).unwrap_or_default()
+}
+
+/// the public body-level decoders (`Subscribe::decode_async` etc.) on the body of a frame
+fn body_level_filter_decision(fam: Fam, typ: u8, frame: &[u8], text: &str) -> Result<bool, String> {
+    use futures_lite::future::block_on;
+    let (hl, rl) = crate::refdec::frame_bounds(frame).map_err(|e| format!("MQV-INTERNAL {:?}", e))?;
+    let mut r: &[u8] = &frame[hl..];
+    let res: Result<(), String> = match (fam, typ) {
+        (Fam::V3, model::T_SUBSCRIBE) => block_on(mqtt_proto::v3::Subscribe::decode_async(&mut r, rl)).map(|_| ()).map_err(|e| format!("{:?}", e)),
+        (Fam::V3, _) => block_on(mqtt_proto::v3::Unsubscribe::decode_async(&mut r, rl)).map(|_| ()).map_err(|e| format!("{:?}", e)),
+        (Fam::V5, t) => {
+            let h = mqtt_proto::v5::Header::decode(frame).map_err(|e| format!("v5 header: {:?}", e))?;
+            if t == model::T_SUBSCRIBE {
+                block_on(mqtt_proto::v5::Subscribe::decode_async(&mut r, h)).map(|_| ()).map_err(|e| format!("{:?}", e))
+            } else {
+                block_on(mqtt_proto::v5::Unsubscribe::decode_async(&mut r, h)).map(|_| ()).map_err(|e| format!("{:?}", e))
+            }
+        }
+    };
+    match res {
+        Ok(()) => Ok(true),
+        Err(e) if e.contains("InvalidTopicFilter") && e.contains(&format!("{:?}", text)) => Ok(false),
+        Err(e) => Err(format!("body-level decoder of {} {} returned {} for filter {:?}", fam.name(), model::type_name(typ), e, text)),
+    }
 }
 
 /// accept / reject decision of the three front-ends for a frame carrying the string;
@@ -108,6 +136,26 @@ pub fn check_filter(s: &str, packets: bool, all_fronts: bool) -> Result<bool, St
             let a5 = packet_decision::<V5>(&sub_frame(Fam::V5, typ, s.as_bytes()), &e5, &what, all_fronts)?;
             if a3 != want || a5 != want {
                 return Err(format!("{}: v3 {} / v5 {} but the specification says {}", what, a3, a5, if want { "valid" } else { "invalid" }));
+            }
+            if all_fronts && s.len() <= 60_000 {
+                // the filter in first, middle and last position of a longer list, and twice
+                let ok: &[u8] = b"ok/+";
+                let lists: [Vec<&[u8]>; 4] = [vec![s.as_bytes(), ok], vec![ok, s.as_bytes()], vec![ok, s.as_bytes(), ok], vec![s.as_bytes(), s.as_bytes()]];
+                for l in lists.iter() {
+                    let what = format!("{} carrying filter {:?} in a list of {}", model::type_name(typ), s, l.len());
+                    let a3 = packet_decision::<V3>(&sub_frame_multi(Fam::V3, typ, l), &e3, &what, true)?;
+                    let a5 = packet_decision::<V5>(&sub_frame_multi(Fam::V5, typ, l), &e5, &what, true)?;
+                    if a3 != want || a5 != want {
+                        return Err(format!("{}: v3 {} / v5 {} but the specification says {}", what, a3, a5, if want { "valid" } else { "invalid" }));
+                    }
+                }
+                // the public body-level decoders give the same decision
+                for fam in [Fam::V3, Fam::V5] {
+                    let d = body_level_filter_decision(fam, typ, &sub_frame(fam, typ, s.as_bytes()), s)?;
+                    if d != want {
+                        return Err(format!("body-level decoder of {} {} {} filter {:?} but the specification says {}", fam.name(), model::type_name(typ), if d { "accepts" } else { "rejects" }, s, if want { "valid" } else { "invalid" }));
+                    }
+                }
             }
         }
     }
@@ -408,6 +456,66 @@ fn name_frames(s: &[u8]) -> Vec<(&'static str, Fam, Vec<u8>, bool)> {
     v
 }
 
+/// the public body-level decoders that carry a topic name: v3/v5 `Connect::decode_async`,
+/// `Connect::decode_with_protocol`, v5 `LastWill::decode_async`, v3/v5 `Publish::decode_async`,
+/// v5 `PublishProperties` / `WillProperties::decode_async`
+fn body_level_name_decisions(s: &str) -> Result<Vec<(&'static str, bool)>, String> {
+    use futures_lite::future::block_on;
+    use mqtt_proto::{v3, Protocol, QoS};
+    let mut out = Vec::new();
+    let classify = |path: &'static str, r: Result<(), String>| -> Result<(&'static str, bool), String> {
+        match r {
+            Ok(()) => Ok((path, true)),
+            Err(e) if e.contains("InvalidTopicName") || e.contains("InvalidResponseTopic") => Ok((path, false)),
+            Err(e) => Err(format!("{} returned {} for topic name {:?}", path, e, s.chars().take(40).collect::<String>())),
+        }
+    };
+    for (path, fam, frame, resp) in name_frames(s.as_bytes()) {
+        let (hl, _) = crate::refdec::frame_bounds(&frame).map_err(|e| format!("MQV-INTERNAL {:?}", e))?;
+        let body = &frame[hl..];
+        match (path, fam) {
+            ("PUBLISH topic", Fam::V3) => {
+                let h = v3::Header::decode(&frame).map_err(|e| format!("{:?}", e))?;
+                let mut r: &[u8] = body;
+                out.push(classify("v3::Publish::decode_async", block_on(v3::Publish::decode_async(&mut r, h)).map(|_| ()).map_err(|e| format!("{:?}", e)))?);
+            }
+            ("PUBLISH topic", Fam::V5) | ("PUBLISH response topic", _) => {
+                let h = v5::Header::decode(&frame).map_err(|e| format!("{:?}", e))?;
+                let mut r: &[u8] = body;
+                out.push(classify("v5::Publish::decode_async", block_on(v5::Publish::decode_async(&mut r, h)).map(|_| ()).map_err(|e| format!("{:?}", e)))?);
+                if resp {
+                    // the property set alone: topic "t" (2+1 bytes) precedes it
+                    let mut r: &[u8] = &body[3..];
+                    out.push(classify("v5::PublishProperties::decode_async", block_on(v5::PublishProperties::decode_async(&mut r, v5::PacketType::Publish)).map(|_| ()).map_err(|e| format!("{:?}", e)))?);
+                }
+            }
+            ("will topic", Fam::V3) => {
+                let mut r: &[u8] = body;
+                out.push(classify("v3::Connect::decode_async", block_on(v3::Connect::decode_async(&mut r)).map(|_| ()).map_err(|e| format!("{:?}", e)))?);
+                let mut r: &[u8] = &body[7..]; // after protocol name (2+4) and level
+                out.push(classify("v3::Connect::decode_with_protocol", block_on(v3::Connect::decode_with_protocol(&mut r, Protocol::V311)).map(|_| ()).map_err(|e| format!("{:?}", e)))?);
+            }
+            (_, Fam::V5) => {
+                // will topic / will response topic in a v5 CONNECT
+                let h = v5::Header::decode(&frame).map_err(|e| format!("{:?}", e))?;
+                let mut r: &[u8] = body;
+                out.push(classify("v5::Connect::decode_async", block_on(v5::Connect::decode_async(&mut r, h)).map(|_| ()).map_err(|e| format!("{:?}", e)))?);
+                let mut r: &[u8] = &body[7..];
+                out.push(classify("v5::Connect::decode_with_protocol", block_on(v5::Connect::decode_with_protocol(&mut r, h, Protocol::V500)).map(|_| ()).map_err(|e| format!("{:?}", e)))?);
+                // the will alone: after protocol(7) flags(1) keep-alive(2) property length(1) client id (2+1)
+                let mut r: &[u8] = &body[14..];
+                out.push(classify("v5::LastWill::decode_async", block_on(v5::LastWill::decode_async(&mut r, QoS::Level0, false)).map(|_| ()).map_err(|e| format!("{:?}", e)))?);
+                if resp {
+                    let mut r: &[u8] = &body[14..];
+                    out.push(classify("v5::WillProperties::decode_async", block_on(v5::WillProperties::decode_async(&mut r)).map(|_| ()).map_err(|e| format!("{:?}", e)))?);
+                }
+            }
+            _ => {}
+        }
+    }
+    Ok(out)
+}
+
 pub fn check_name(s: &str, packets: bool, all_fronts: bool) -> Result<bool, String> {
     let want = specpred::name_valid(s);
     if TopicName::is_invalid(s) == want {
@@ -447,6 +555,13 @@ pub fn check_name(s: &str, packets: bool, all_fronts: bool) -> Result<bool, Stri
             };
             if acc != want {
                 return Err(format!("{} {}: {} but the MQTT rule says {}", fam.name(), what, if acc { "accepted" } else { "rejected" }, if want { "valid" } else { "invalid" }));
+            }
+        }
+        if all_fronts {
+            for (path, acc) in body_level_name_decisions(s)? {
+                if acc != want {
+                    return Err(format!("{} {} topic name {:?} but the MQTT rule says {}", path, if acc { "accepts" } else { "rejects" }, s.chars().take(40).collect::<String>(), if want { "valid" } else { "invalid" }));
+                }
             }
         }
     }
